@@ -50,6 +50,7 @@ type Contract struct {
 	Acquires     []ast.Expr
 	Loops        map[int]*LoopContract
 	Safety       bool
+	Overflow     bool // + - * on machine integers must not wrap (obligations safe:...:overflow:k)
 	Pure         bool
 	NoPanic      bool
 	FrameChecked bool
@@ -413,6 +414,8 @@ func parseContractFile(path, pkgPath string) (*PkgSpec, error) {
 				switch o {
 				case "safety":
 					cur.Safety = true
+				case "overflow":
+					cur.Overflow = true
 				case "pure":
 					cur.Pure = true
 				case "nopanic":
